@@ -31,7 +31,7 @@ pub static PROP: Prop = Prop {
         "a source whose radius equals the configured maximum exactly is judged under both readings (ambiguous in the statement)",
     ],
     profiles: Profiles::Strict,
-    cases: |t| t.pick(300_000, 5_000_000),
+    cases: |t| t.pick(1_000_000, 20_000_000),
     budget_s: |t| t.pick(40, 400),
     run,
     min_nontrivial: 300,
